@@ -661,6 +661,30 @@ func c09(c *Ctx) {
 						continue
 					}
 					d := compositeField(info, rs.Results[0], fDec)
+					if d == nil {
+						// `res := SamplingResult{Decision: A, …}; if cond { res.Decision = B }; return res`: under the facts of this
+						// row the stores to res.Decision that are reachable decide (exactly one, else the literal's field)
+						if v := objOf(info, rs.Results[0]); v != nil {
+							var stores []ast.Expr
+							for y := range seen {
+								if as, ok := y.N.(*ast.AssignStmt); ok && len(as.Lhs) == len(as.Rhs) {
+									for i, l := range as.Lhs {
+										if fv, b := fieldOf(info, l); fv != nil && fDec != nil && fv.Origin() == fDec.Origin() && sameVar(info, b, v) {
+											stores = append(stores, as.Rhs[i])
+										}
+									}
+								}
+							}
+							switch len(stores) {
+							case 1:
+								d = stores[0]
+							case 0:
+								if def := g.LocalDef(v); def != nil {
+									d = compositeField(info, def, fDec)
+								}
+							}
+						}
+					}
 					if d != nil {
 						d = g.ResolveUnder(env, seen, d, x)
 					}
